@@ -426,6 +426,11 @@ Proof.
   apply rq_run_inv. apply rq_init_inv.
 Qed.
 
+Lemma rq_monitor_spec pre progs sched :
+  rc_raced (rc_run (rq_nthreads (q_init pre progs)) (rq_trace (q_init pre progs) sched)) = false
+  /\ hb_wf (rq_nthreads (q_init pre progs)) (rq_trace (q_init pre progs) sched).
+Proof. split; [apply rq_monitor_silent|apply rq_trace_wf]. Qed.
+
 Theorem rq_race_free pre progs sched : ~ hb_race (rq_trace (q_init pre progs) sched).
 Proof.
   apply (hbp_agree (rq_nthreads (q_init pre progs))); [apply rq_trace_wf|apply rq_monitor_silent].
